@@ -15,7 +15,7 @@ RULE = (
     "insertion code, altloc A/B with occupancies (0.6,0.4),(0.4,0.6),(0.5,0.5), repeated atom name, two atoms 0.3 A apart with ordered/equal "
     "occupancies, a chain of three such atoms, HETATM group, 4-character/primed names, absent occupancy, label ids different from auth ids, both "
     "mmCIF null markers; each table emitted as PDB and mmCIF by an independent emitter and read with read_3d_structure(model=m) for m in {None} + "
-    "every model present; expectation computed from the abstract table. non-trivial = table with at least one deviation; distinct = (table, format, "
+    "every model present; expectation computed from the abstract table; plus every corpus file as written (all models) against its abstract table read by the harness's own tokenizer. non-trivial = table with at least one deviation; distinct = (table, format, "
     "emitter options, requested model)."
 )
 ASSUMPTIONS = [
@@ -157,7 +157,8 @@ CIF_OPTS = [dict(), dict(null_icode="."), dict(null_alt="?"), dict(null_occ=".")
 
 def BOUNDS(tier):
     return dict(deviation_list=len(DEVS), d="2 on the full list" if tier == "quick" else "2 on the full list, 3 on a reduced list of %d" % len(REDUCED),
-                formats=["PDB", "mmCIF x %d emitter options" % len(CIF_OPTS)], requested_models="None + every model present")
+                formats=["PDB", "mmCIF x %d emitter options" % len(CIF_OPTS)], requested_models="None + every model present",
+                corpus_files=len(CORPUS_Q if tier == "quick" else CORPUS_T))
 
 
 def cases(tier):
@@ -175,17 +176,51 @@ def cases(tier):
             yield dict(devs=list(c), fmt="mmCIF", opt=k)
 
 
+CORPUS_Q = ["1HMH_1_E.cif", "6INQ.cif", "1DFU_1_M-N.cif", "4WTI_1_T-P.cif", "1E7K_1_C.cif", "184D.cif", "1A1T_1_B.cif", "4gqj-assembly1.cif", "6FC9.cif", "1JJP.cif", "1ATO.pdb", "6RS3.cif"]
+CORPUS_T = CORPUS_Q + ["1E7K_1_C_modified.cif", "1ehz-assembly-1.cif", "8btk_B7.cif", "4qln.cif", "4qln.pdb", "2HY9.cif", "488d.pdb", "q-ugg-5k-salt_400-500ns_frame1065.pdb", "1a9n.cif", "6g90_1.cif"]
+
+
 def families(tier):
-    return [("tables", lambda: cases(tier), 1)]
+    return [("tables", lambda: cases(tier), 1), ("corpus", lambda: (dict(file=f) for f in (CORPUS_Q if tier == "quick" else CORPUS_T)), 1)]
 
 
 def dist(a, b):
     return math.sqrt(sum((float(a[f]) - float(b[f])) ** 2 for f in "xyz"))
 
 
+def run_corpus(case):
+    """The real corpus file as written, against its abstract table read by the harness's own tokenizer / column reader."""
+    from rnapolis.parser import read_3d_structure
+
+    from mc import corpus
+
+    t = corpus.table(case["file"], first_model_only=False)
+    models = []
+    for a in t:
+        if a["model"] not in models:
+            models.append(a["model"])
+    out = []
+    outcome = []
+    path = os.path.join(corpus.TESTS, case["file"])
+    for req in [None] + (models if len(models) > 1 else []):
+        with open(path) as f:
+            r = observe(read_3d_structure, f, req)
+        m = models[0] if req is None else req
+        if r[0] == "exc":
+            out.append(viol("corpus-read-raises:" + r[1], "read_3d_structure(%s, model=%r) raised %s" % (case["file"], req, r[2])))
+            continue
+        outcome.append(judge(t, m, r[1], "corpus", out))
+    u = {}
+    for v in out:
+        u.setdefault(v["signature"], v)
+    return dict(nontrivial=True, outcome="corpus:" + ",".join(sorted(set(outcome))), violations=list(u.values()), undecided="unjudged" in outcome)
+
+
 def run_case(case):
     from rnapolis.parser import read_3d_structure
 
+    if "file" in case:
+        return run_corpus(case)
     t = enumio.apply_deviations([DEVS[k] for k in case["devs"]])
     if t is None:
         return dict(nontrivial=False, outcome="inapplicable", violations=[])
